@@ -68,6 +68,9 @@ type rNode struct {
 	snap   *rSnap
 	// reference model
 	acceptedAt map[int]uint64 // member index -> epoch at which its NewVoter was accepted
+	// whether the proposer of the current term has accepted, by the reference's own account:
+	// the genesis value, true after a successful AcceptProposer or verified proposal of the proposer, false from every election on
+	refAccepted bool
 }
 
 type c16Inst struct {
@@ -107,6 +110,7 @@ func newC16Inst(r *mc.Run, c c16Cfg) (*c16Inst, error) {
 	ctx, _ := n.App.NewUncachedContext(false, hdr).WithConsensusParams(*g.Consensus).CacheContext()
 	in.root = &rNode{ctx: ctx, height: n.Height, time: n.Time, acceptedAt: map[int]uint64{}}
 	in.root.snap = in.takeSnap(ctx.WithBlockHeight(n.Height).WithBlockTime(n.Time))
+	in.root.refAccepted = in.root.snap.Relayer.ProposerAccepted
 	return in, nil
 }
 
@@ -291,7 +295,7 @@ func (in *c16Inst) Step(nd mc.Node, b rBlock, path []rBlock, silent bool) mc.Nod
 	t := pre.time.Add(time.Duration(b.Dt) * time.Second)
 	bctx, _ := pre.ctx.CacheContext()
 	bctx = bctx.WithBlockHeight(h).WithBlockTime(t).WithEventManager(sdk.NewEventManager()).WithHeaderHash(sim.FakeBlockHash(h, nil))
-	next := &rNode{height: h, time: t, acceptedAt: map[int]uint64{}}
+	next := &rNode{height: h, time: t, acceptedAt: map[int]uint64{}, refAccepted: pre.refAccepted}
 	for k, v := range pre.acceptedAt {
 		next.acceptedAt[k] = v
 	}
@@ -336,6 +340,7 @@ func (in *c16Inst) Step(nd mc.Node, b rBlock, path []rBlock, silent bool) mc.Nod
 			if err == nil {
 				write()
 				next.acceptedAt[o.Who] = cur.Relayer.Epoch
+				next.refAccepted = true // a proposal that passes verification counts as the proposer taking up its term
 				outcome("newvoter-accepted")
 			} else {
 				outcome("newvoter-rejected:" + o.Var)
@@ -354,7 +359,9 @@ func (in *c16Inst) Step(nd mc.Node, b rBlock, path []rBlock, silent bool) mc.Nod
 			if err == nil {
 				write()
 				outcome("accept-ok")
-				if cur.Relayer.ProposerAccepted || o.Var == "wrong-epoch" {
+				was := next.refAccepted
+				next.refAccepted = true
+				if was || cur.Relayer.ProposerAccepted || o.Var == "wrong-epoch" {
 					viol("accept-proposer-accepted-wrongly", fmt.Sprintf("accepted although already accepted=%v variant=%s", cur.Relayer.ProposerAccepted, o.Var))
 				}
 				if t.Sub(cur.Relayer.LastElected) > cur.Params.AcceptProposerTimeout {
@@ -362,6 +369,9 @@ func (in *c16Inst) Step(nd mc.Node, b rBlock, path []rBlock, silent bool) mc.Nod
 				}
 			} else {
 				outcome("accept-rejected")
+				if !next.refAccepted && o.Var == "right-epoch" && t.Sub(cur.Relayer.LastElected) <= cur.Params.AcceptProposerTimeout {
+					viol("timely-acceptance-rejected", fmt.Sprintf("the proposer of epoch %d has not accepted yet, %s after its election (timeout %s): %v", cur.Relayer.Epoch, t.Sub(cur.Relayer.LastElected), cur.Params.AcceptProposerTimeout, err))
+				}
 			}
 		case "vote":
 			// a block-hash vote signed by every current member (optionally plus the joining candidate)
@@ -385,6 +395,7 @@ func (in *c16Inst) Step(nd mc.Node, b rBlock, path []rBlock, silent bool) mc.Nod
 			_, err, _ := in.n.Deliver(tctx, m)
 			if err == nil {
 				write()
+				next.refAccepted = true
 				outcome("vote-accepted")
 			} else {
 				outcome("vote-rejected")
@@ -413,14 +424,25 @@ func (in *c16Inst) Step(nd mc.Node, b rBlock, path []rBlock, silent bool) mc.Nod
 
 	// election timing
 	elapsed := t.Sub(mid.Relayer.LastElected)
-	electing := elapsed >= mid.Params.ElectingPeriod || (!mid.Relayer.ProposerAccepted && mid.Params.AcceptProposerTimeout != 0 && elapsed >= mid.Params.AcceptProposerTimeout)
+	electing := elapsed >= mid.Params.ElectingPeriod || (!next.refAccepted && mid.Params.AcceptProposerTimeout != 0 && elapsed >= mid.Params.AcceptProposerTimeout)
 	wantEpoch := mid.Relayer.Epoch
 	if electing {
 		wantEpoch++
+		next.refAccepted = false // a new term: whoever holds the role now has not accepted it
+		if len(post.Relayer.Voters) == 0 {
+			// a sole member has nobody to be replaced by; the property leaves its flag open
+			next.refAccepted = post.Relayer.ProposerAccepted
+		}
 		outcome("election")
 	}
 	if post.Relayer.Epoch != wantEpoch {
-		viol("election-timing", fmt.Sprintf("epoch %d -> %d, elapsed %s, accepted=%v: reference expects %d", mid.Relayer.Epoch, post.Relayer.Epoch, elapsed, mid.Relayer.ProposerAccepted, wantEpoch))
+		viol("election-timing", fmt.Sprintf("epoch %d -> %d, elapsed %s, accepted (reference)=%v: reference expects %d", mid.Relayer.Epoch, post.Relayer.Epoch, elapsed, next.refAccepted, wantEpoch))
+	}
+	if post.Relayer.ProposerAccepted != next.refAccepted {
+		viol("accepted-flag-without-acceptance", fmt.Sprintf("epoch %d proposer %s: accepted flag %v, reference %v (election in this block: %v)", post.Relayer.Epoch, post.Relayer.Proposer, post.Relayer.ProposerAccepted, next.refAccepted, electing))
+	}
+	if electing && !post.Relayer.LastElected.Equal(t) {
+		viol("election-time-not-recorded", fmt.Sprintf("last elected %s after an election at %s", post.Relayer.LastElected, t))
 	}
 	if !electing && (post.Relayer.Proposer != mid.Relayer.Proposer || fmt.Sprint(post.Relayer.Voters) != fmt.Sprint(mid.Relayer.Voters)) {
 		viol("membership-changed-without-election", fmt.Sprintf("%s%v -> %s%v", mid.Relayer.Proposer, mid.Relayer.Voters, post.Relayer.Proposer, post.Relayer.Voters))
